@@ -412,6 +412,7 @@ func runC09(c *Ctx) {
 }
 
 var c09Canaries = []Canary{
+	{Name: "r7-object-named-after-input", ExpectKey: "C09.R1#clean:object-named-after-stored-bytes", Edits: []Edit{{File: "lfs/extension.go", Find: "\ntype pipeResponse struct {\n\tfile    *os.File\n\tresults []*pipeExtResult\n}\n\n", Repl: "\ntype pipeResponse struct {\n\tfile    *os.File\n\toid     string\n\tresults []*pipeExtResult\n}\n\n"}, {File: "lfs/extension.go", Find: "\t}\n\n\toid := hex.EncodeToString(hasher.Sum(nil))\n\tfor _, ec := range extcmds {\n\t\tec.result.oidIn = oid\n\t\toid = hex.EncodeToString(ec.hasher.Sum(nil))\n", Repl: "\t}\n\n\toid := hex.EncodeToString(hasher.Sum(nil))\n\tresponse.oid = oid\n\tfor _, ec := range extcmds {\n\t\tec.result.oidIn = oid\n\t\toid = hex.EncodeToString(ec.hasher.Sum(nil))\n"}, {File: "lfs/gitfilter_clean.go", Find: "\t\t\treturn nil, err\n\t\t}\n\n\t\toid = response.results[len(response.results)-1].oidOut\n\t\ttmp = response.file\n\t\tvar stat os.FileInfo\n\t\tif stat, err = os.Stat(tmp.Name()); err != nil {\n", Repl: "\t\t\treturn nil, err\n\t\t}\n\n\t\toid = response.oid\n\t\ttmp = response.file\n\t\tvar stat os.FileInfo\n\t\tif stat, err = os.Stat(tmp.Name()); err != nil {\n"}}},
 	{Name: "r6-response-matched-by-position", ExpectKey: "C09.R1#batch-response:matched-by-oid", Edits: []Edit{{File: "tq/transfer_queue.go", Find: "\t\trequested[t.Oid] = struct{}{}\n\t}\n\n\tfor _, o := range bRes.Objects {\n\t\tif _, ok := requested[o.Oid]; !ok {\n\t\t\t// Not an object of this batch, or one the response has\n\t\t\t// already named: there is nothing of ours to account for.\n", Repl: "\t\trequested[t.Oid] = struct{}{}\n\t}\n\n\tfor i, o := range bRes.Objects {\n\t\tif _, ok := requested[o.Oid]; !ok {\n\t\t\t// Not an object of this batch, or one the response has\n\t\t\t// already named: there is nothing of ours to account for.\n"}, {File: "tq/transfer_queue.go", Find: "\t\t}\n\n\t\tq.trMutex.Lock()\n\t\tobjects, ok := q.transfers[o.Oid]\n\t\tq.trMutex.Unlock()\n\t\tif !ok {\n\t\t\t// If we couldn't find any associated\n", Repl: "\t\t}\n\n\t\tq.trMutex.Lock()\n\t\t_, ok := q.transfers[o.Oid]\n\t\tq.trMutex.Unlock()\n\t\tif !ok {\n\t\t\t// If we couldn't find any associated\n"}, {File: "tq/transfer_queue.go", Find: "\t\t\tq.Skip(o.Size)\n\t\t\tq.wait.Done()\n\t\t} else {\n\t\t\t// Pick t[0], since it will cover all transfers with the\n\t\t\t// same OID.\n\t\t\ttr := newTransfer(o, objects.First().Name, objects.First().Path)\n\n\t\t\tif a, err := tr.Rel(q.direction.String()); err != nil {\n\t\t\t\tif q.canRetryObject(tr.Oid, err) {\n\t\t\t\t\tenqueueRetry(objects.First(), err, nil)\n\t\t\t\t} else {\n\t\t\t\t\tq.errorc <- errors.Errorf(\"[%v] %v\", tr.Name, err)\n\n", Repl: "\t\t\tq.Skip(o.Size)\n\t\t\tq.wait.Done()\n\t\t} else {\n\t\t\t// Pick the tuple that was batched, since it covers all\n\t\t\t// transfers with the same OID. The chain in q.transfers\n\t\t\t// may be appended to concurrently by Add(), so do not\n\t\t\t// read it outside of the lock.\n\t\t\tfirst := batch[i]\n\t\t\ttr := newTransfer(o, first.Name, first.Path)\n\n\t\t\tif a, err := tr.Rel(q.direction.String()); err != nil {\n\t\t\t\tif q.canRetryObject(tr.Oid, err) {\n\t\t\t\t\tenqueueRetry(first, err, nil)\n\t\t\t\t} else {\n\t\t\t\t\tq.errorc <- errors.Errorf(\"[%v] %v\", tr.Name, err)\n\n"}, {File: "tq/transfer_queue.go", Find: "\t\t\t\tq.Skip(o.Size)\n\t\t\t\tq.wait.Done()\n\t\t\t} else {\n\t\t\t\tq.meter.StartTransfer(objects.First().Name)\n\t\t\t\ttoTransfer = append(toTransfer, tr)\n\t\t\t}\n\t\t}\n", Repl: "\t\t\t\tq.Skip(o.Size)\n\t\t\t\tq.wait.Done()\n\t\t\t} else {\n\t\t\t\tq.meter.StartTransfer(first.Name)\n\t\t\t\ttoTransfer = append(toTransfer, tr)\n\t\t\t}\n\t\t}\n"}}},
 	{Name: "r4-untyped-grace-period", ExpectKey: "C09.R5#cleanupTmp:removes-only", Edits: []Edit{{File: "fs/cleanup.go", Find: "\t\tif time.Since(info.ModTime()) > time.Hour {", Repl: "\t\tif time.Since(info.ModTime()) > 3600 {"}}},
 	{Name: "clean-writes-in-place", ExpectKey: "C09.R1#inplace", Edits: []Edit{{File: "commands/command_clean.go", Find: "		if err := os.Rename(tmpfile, mediafile); err != nil {\n			Panic(err, tr.Tr.Get(\"Unable to move %s to %s\", tmpfile, mediafile))\n		}", Repl: "		data, rerr := os.ReadFile(tmpfile)\n		if rerr != nil {\n			Panic(rerr, \"read\")\n		}\n		if err := os.WriteFile(mediafile, data, 0644); err != nil {\n			Panic(err, tr.Tr.Get(\"Unable to move %s to %s\", tmpfile, mediafile))\n		}"}}},
